@@ -5,8 +5,8 @@
    (PathMatcher, SmarterPathSplitter), Res/Replacement.v (replacement.Filter).
    External behaviour enters as parameters: [parse] (regexp.Compile: pattern text -> AST),
    [lsel] (k8s label selectors), [enc] (go-yaml emitter), [cluster_scoped] (openapi). *)
-From KV Require Import Base.Regex Base.RegexProofs Yaml.Match Yaml.MatchProofs Yaml.MatchTotalProofs Yaml.MatchCreateProofs Yaml.MatchFrameProofs Yaml.MatchDisjointProofs
-  Res.Image Res.ImageProofs Res.ImageNormProofs Res.ImageParseProofs Base.RegexParse Res.Selector Res.SelectorProofs Res.Replica Res.ReplicaProofs
+From KV Require Import Base.Regex Base.RegexProofs Yaml.Match Yaml.MatchProofs Yaml.MatchTotalProofs Yaml.MatchCreateProofs Yaml.MatchFrameProofs Yaml.MatchDisjointProofs Yaml.MatchSelProofs
+  Res.PatchSelect Res.PatchSelectProofs Res.Image Res.ImageProofs Res.ImageNormProofs Res.ImageParseProofs Res.ImageClosedProofs Base.RegexParse Res.Selector Res.SelectorProofs Res.Replica Res.ReplicaProofs Res.ReplicaExactProofs
   Res.Replacement Res.ReplacementProofs Res.ReplacementFrameProofs.
 
 (* ------------------------------------------------------------------ regular expressions *)
@@ -54,6 +54,55 @@ Theorem C10_select_bad_pattern_is_error :
     In p (sel_patterns s) -> compile_anchored parse p = Err -> select parse cs lsel s rs = Err.
 Proof. exact select_bad_pattern. Qed.
 Print Assumptions C10_select_bad_pattern_is_error.
+
+(* ------------------------------------------------------------------ patches: entries *)
+
+(* A `patches:` entry WITH a target changes exactly the resources its selector keeps ([sel_keep]:
+   name and namespace patterns fully match the original or the current id, group / version / kind
+   patterns fully match, label and annotation selectors hold): those receive the patch ([apply], the
+   merge itself is C04's), every other resource is untouched, none is added or lost.
+   Hypotheses as in C10_select_exact. *)
+Theorem C10_patch_selects_exactly :
+  forall (apply : node -> res node) (parse : string -> option re) (cluster_scoped : gvk -> bool)
+         (lsel : string -> list (string * string) -> option bool) (s : selector) (ast : string -> re)
+         (rs rs' : list node),
+    parse "" = Some Eps ->
+    (forall p, In p (sel_patterns s) -> p <> "" -> parse ("^(?:" ++ p ++ ")$") = Some (anchor (ast p))) ->
+    (forall obj, In obj rs -> well_formed lsel s obj) ->
+    patch_transform parse cluster_scoped lsel apply (PTarget s) rs = Ok rs' ->
+    List.length rs' = List.length rs /\
+    forall j obj, nth_error rs j = Some obj ->
+      (sel_keep cluster_scoped lsel s ast obj = true -> exists obj', apply obj = Ok obj' /\ nth_error rs' j = Some obj') /\
+      (sel_keep cluster_scoped lsel s ast obj = false -> nth_error rs' j = Some obj).
+Proof. exact patch_target_selects_exactly. Qed.
+Print Assumptions C10_patch_selects_exactly.
+
+(* An entry WITHOUT a target (a strategic-merge body naming a resource) changes exactly ONE resource:
+   the only one with an id — previous or current — equal to the id of the body (same effective
+   namespace, name, group, version, kind); none or several is an error. *)
+Theorem C10_patch_by_name_selects_exactly :
+  forall (apply : node -> res node) (parse : string -> option re) (cluster_scoped : gvk -> bool)
+         (lsel : string -> list (string * string) -> option bool) (id : resid) (rs rs' : list node),
+    patch_transform parse cluster_scoped lsel apply (PById id) rs = Ok rs' ->
+    exists i, List.length rs' = List.length rs /\
+      (exists obj obj', nth_error rs i = Some obj /\ any_id_equals cluster_scoped id obj = Ok true /\
+                        apply obj = Ok obj' /\ nth_error rs' i = Some obj') /\
+      forall j obj, j <> i -> nth_error rs j = Some obj ->
+        any_id_equals cluster_scoped id obj = Ok false /\ nth_error rs' j = Some obj.
+Proof. exact patch_by_id_selects_exactly. Qed.
+Print Assumptions C10_patch_by_name_selects_exactly.
+
+(* both kinds: exactly the indices [patch_targets] computes are patched *)
+Theorem C10_patch_transform_exact :
+  forall (apply : node -> res node) parse cluster_scoped lsel (e : patch_entry) (rs rs' : list node),
+    patch_transform parse cluster_scoped lsel apply e rs = Ok rs' ->
+    exists idx, patch_targets parse cluster_scoped lsel e rs = Ok idx /\
+      List.length rs' = List.length rs /\
+      forall j obj, nth_error rs j = Some obj ->
+        (In j idx -> exists obj', apply obj = Ok obj' /\ nth_error rs' j = Some obj') /\
+        (~ In j idx -> nth_error rs' j = Some obj).
+Proof. exact patch_transform_exact. Qed.
+Print Assumptions C10_patch_transform_exact.
 
 (* ------------------------------------------------------------------ images *)
 
@@ -141,6 +190,67 @@ Theorem C10_image_compose : forall im v n t d,
 Proof. exact compose_table. Qed.
 Print Assumptions C10_image_compose.
 
+(* ---- the image entry at full strength ---- *)
+
+(* An entry rewrites a value IFF the value is a reference name[:tag][@sha256:digest] of the entry's
+   name; every other value is left alone (Ok None = "not matched, untouched").  No hypothesis about
+   Go's parser: regexp.Compile is the Gallina parser (compared with Go's AST in the correspondence). *)
+Theorem C10_image_update_exact : forall im v,
+  ascii_text (im_name im) = true ->
+  (image_ref_of (im_name im) v -> update_value re_parse im v = Ok (Some (compose im v))) /\
+  (~ image_ref_of (im_name im) v -> update_value re_parse im v = Ok None).
+Proof. exact update_value_exact_parsed. Qed.
+Print Assumptions C10_image_update_exact.
+
+(* "reference of t" spelled out: t, an optional :tag, an optional @sha256:digest, tag characters only *)
+Theorem C10_image_ref_text : forall t s,
+  image_ref_of t s <-> exists oy oz, s = ref_text t oy oz /\ opt_tag_ok oy /\ opt_tag_ok oz.
+Proof. exact image_ref_of_ref_text. Qed.
+Print Assumptions C10_image_ref_text.
+
+(* image.Split on a matched reference returns exactly what the match saw — for an entry name that is a
+   plain repository path (no ':' / '@' after the registry host; the host may carry a port) *)
+Theorem C10_image_split_ref : forall t oy oz,
+  plain_repo t = true -> opt_tag_ok oy -> opt_tag_ok oz ->
+  split_image (ref_text t oy oz) = (t, tag_of oy, dig_of oz).
+Proof. exact split_ref. Qed.
+Print Assumptions C10_image_split_ref.
+
+(* closed form of the new value: no Split, no regexp in the statement *)
+Theorem C10_image_update_closed : forall im oy oz,
+  ascii_text (im_name im) = true -> plain_repo (im_name im) = true -> opt_tag_ok oy -> opt_tag_ok oz ->
+  update_value re_parse im (ref_text (im_name im) oy oz) =
+  Ok (Some (compose_parts im (im_name im) (tag_of oy) (dig_of oz))).
+Proof. exact update_value_closed_parsed. Qed.
+Print Assumptions C10_image_update_closed.
+
+(* the newName / newTag / digest / tagSuffix combinations: newName replaces the name and nothing
+   else; newTag alone drops the old digest; digest alone drops the old tag; both replace both;
+   tagSuffix counts only when neither is set and drops the digest; nothing set rebuilds the reference *)
+Theorem C10_image_combinations : forall im t tag dig,
+  let n' := if String.eqb (im_new_name im) "" then t else im_new_name im in
+  (im_new_tag im <> "" -> im_digest im <> "" ->
+     compose_parts im t tag dig = n' ++ ":" ++ im_new_tag im ++ "@" ++ im_digest im) /\
+  (im_new_tag im <> "" -> im_digest im = "" ->
+     compose_parts im t tag dig = n' ++ ":" ++ im_new_tag im) /\
+  (im_new_tag im = "" -> im_digest im <> "" ->
+     compose_parts im t tag dig = n' ++ "@" ++ im_digest im) /\
+  (im_new_tag im = "" -> im_digest im = "" -> im_tag_suffix im <> "" ->
+     compose_parts im t tag dig = n' ++ ":" ++ tag ++ im_tag_suffix im) /\
+  (im_new_tag im = "" -> im_digest im = "" -> im_tag_suffix im = "" ->
+     compose_parts im t tag dig = build_image n' tag dig).
+Proof. exact compose_parts_table. Qed.
+Print Assumptions C10_image_combinations.
+
+(* an entry that sets nothing leaves a matched reference textually unchanged, except that an empty
+   tag loses its colon ("x:" becomes "x") *)
+Theorem C10_image_identity : forall im t oy oz,
+  im_new_name im = "" -> im_new_tag im = "" -> im_digest im = "" -> im_tag_suffix im = "" ->
+  oy <> Some "" ->
+  compose_parts im t (tag_of oy) (dig_of oz) = ref_text t oy oz.
+Proof. exact compose_parts_identity. Qed.
+Print Assumptions C10_image_identity.
+
 (* "the transformer updates an image field once" is FALSE: ImageTagTransformer runs the legacy filter
    and then the field-spec filter, so tagSuffix -s turns x:1 into x:1-s-s
    (finding C10/image-tagsuffix-applied-twice; the proposed repair was declined) *)
@@ -196,6 +306,47 @@ Theorem C10_replica_only_count : forall rp fs kvs skvs t st v,
   Ok (Map (set_first "spec" (Map (set_first "replicas" (Scalar TInt st (rp_count rp)) skvs)) kvs)).
 Proof. exact replica_filter_spec. Qed.
 Print Assumptions C10_replica_only_count.
+
+(* ---- the replicas transformer at full strength: pointwise ---- *)
+
+(* The transformer succeeds with rs' exactly when every resource's own run (all field specs in turn
+   on that resource alone) succeeds, rs' are the results, and some (resource, field spec) matched. *)
+Theorem C10_replica_pointwise : forall rp fss rs rs',
+  replica_transform rp fss rs = Ok rs' <->
+  exists ps, mapM (replica_one rp fss) rs = Ok ps /\ rs' = map snd ps /\ existsb fst ps = true.
+Proof. exact replica_transform_pointwise. Qed.
+Print Assumptions C10_replica_pointwise.
+
+(* ... so every resource of the result depends on that resource only *)
+Theorem C10_replica_result_local : forall rp fss rs rs',
+  replica_transform rp fss rs = Ok rs' ->
+  forall i obj, nth_error rs i = Some obj ->
+    exists f obj', replica_one rp fss obj = Ok (f, obj') /\ nth_error rs' i = Some obj'.
+Proof. exact replica_transform_nth. Qed.
+Print Assumptions C10_replica_result_local.
+
+(* one run: unmatched field specs are skipped, a matched one applies the replicacount filter *)
+Theorem C10_replica_one_unmatched : forall rp fss obj,
+  (forall fs, In fs fss -> replica_hits rp fs obj = Ok false) -> replica_one rp fss obj = Ok (false, obj).
+Proof. exact replica_one_none. Qed.
+Print Assumptions C10_replica_one_unmatched.
+
+Theorem C10_replica_one_matched : forall rp fs t obj obj',
+  replica_hits rp fs obj = Ok true -> replica_filter rp fs obj = Ok obj' ->
+  replica_one rp (fs :: t) obj = (do q <- replica_one rp t obj'; Ok (true, snd q)).
+Proof. exact replica_one_hit. Qed.
+Print Assumptions C10_replica_one_matched.
+
+(* a replicas field that is present, not null and not a scalar is an error *)
+Theorem C10_replica_non_scalar_is_error : forall rp fs,
+  fs_path fs = "spec/replicas" ->
+  forall kvs skvs x,
+  is_match_gvk fs (Map kvs) = true ->
+  find_field "spec" kvs = Some (Map skvs) -> find_field "replicas" skvs = Some x ->
+  is_null x = false -> (forall t st v, x <> Scalar t st v) ->
+  replica_filter rp fs (Map kvs) = Err.
+Proof. exact replica_filter_non_scalar. Qed.
+Print Assumptions C10_replica_non_scalar_is_error.
 
 (* ------------------------------------------------------------------ replacements *)
 
@@ -334,6 +485,22 @@ Theorem C10_match_elem_partial :
       exists kvs x, nth_error es j = Some (Map kvs) /\ find_field k kvs = Some x /\ matches r (enc x) = true.
 Proof. exact pm_last_selector_spec. Qed.
 Print Assumptions C10_match_elem_partial.
+
+(* the same at ANY position of the path (no "last part" guard): below a sequence, the address j :: a is
+   returned iff entry j's field k has a text in which v finds a match and the REST of the path returns a
+   inside entry j — a list selector narrows the search to the matching entries and to nothing else *)
+Theorem C10_match_selector_exact :
+  forall parse enc nonstr (k v : string) (r : re) (rest : list string) (fuel : nat) (es es' : list node) (hs : list hit),
+    k <> "" -> parse v = Some r ->
+    split_index_name_value ("[" ++ k ++ "=" ++ v ++ "]") = Some (k, v) ->
+    classify_pm ("[" ++ k ++ "=" ++ v ++ "]") = PPSel ("[" ++ k ++ "=" ++ v ++ "]") ->
+    pm parse enc nonstr None (S fuel) (("[" ++ k ++ "=" ++ v ++ "]") :: rest) (Seq es) = Ok (Seq es', hs) ->
+    forall j a, In (HAt (j :: a)) hs <->
+      exists kvs x e' hj,
+        nth_error es j = Some (Map kvs) /\ find_field k kvs = Some x /\ matches r (enc x) = true /\
+        pm parse enc nonstr None (S fuel) rest (Map kvs) = Ok (e', hj) /\ In (HAt a) hj.
+Proof. exact pm_selector_spec. Qed.
+Print Assumptions C10_match_selector_exact.
 
 (* PathMatcher ALWAYS returns — every path, every document, with or without Create, no hypothesis
    on the selector values: the create-and-retry of doSeq is guarded (repair of
